@@ -33,7 +33,7 @@ CLAIMED = {
          'contract-based deductive verification (Verus) of the id-assignment function + fold lemma', '7 C15'),
  'C16': ('proof', 'PARTIAL, relative to the evaluated cfg table (predicate text -> bool) the macro chain hands to the parsers: Verus proves on the real bodies that (1) collect_all_cfg_predicates / get_cfg_predicates collect exactly the predicates decorating the declaration / the query, pairwise distinct (so every decorating predicate gets a table entry); (2) evaluate_cfgs / is_cfg_enabled report an item enabled iff EVERY one of its predicates is true in the table (an item without attributes is enabled); (3) DataWorld::new produces a result that depends on the declaration only through its enabled items (a disabled archetype or component consumes no id and is not in the world data: lemma_c16_data; with no false predicate the selection is the declaration itself: lemma_c16_all_enabled), so everything generated from the world data (ids, storage, Select tables) is as if the disabled items had not been written and the true attributes were absent; (4) bind_query_params: a cfg-disabled parameter never constrains which archetypes match (lemma_c16_binds) and a cfg-decorated OneOf is rejected. OUTSIDE: the evaluation of the predicates by rustc through the generated cfg-probing macro chain (macros/src/generate/cfg.rs) and the order in which it threads the booleans, the syn parsers, the #[cfg] attributes re-emitted on closure parameters. The table-building tail of ParseCfgDecorated::parse is verified as a slice (the i-th collected predicate maps to the i-th boolean).',
          'contract-based deductive verification (Verus) of the cfg collection / evaluation / selection functions + lemmas over their contracts (partial: relative to the evaluated table)', '7 C16'),
- 'C17': ('proof', 'events configuration: force_create pushes exactly the returned handle to created, force_destroy exactly the removed handle to destroyed, clear_events empties both and changes nothing else, every other &mut method has both logs in its frame, clone copies them. The generated archetype/world layer (the code ecs_world! emits for a two-archetype schema, obtained by evaluating the generator functions of macros/src/generate/world.rs as text: R-quote) and the default methods of traits Archetype/World are verified too: generated clear_events of archetype and world clears every archetype\'s logs; the generated iter_created/iter_destroyed and EcsEventIterator::next yield exactly the concatenation of the archetypes\' lists, each handle once, in order (ghost view over the remaining elements of the slice iterators).',
+ 'C17': ('proof', 'events configuration: force_create pushes exactly the returned handle to created, force_destroy exactly the removed handle to destroyed, clear_events empties both and changes nothing else, every other &mut method has both logs in its frame, clone copies them. The generated archetype/world layer (the code ecs_world! emits for a two-archetype schema, obtained by evaluating the generator functions of macros/src/generate/world.rs as text: R-quote) and the default methods of traits Archetype/World are verified too: generated clear_events of archetype and world clears every archetype\'s logs; the generated iter_created/iter_destroyed and EcsEventIterator::next yield exactly the concatenation of the archetypes\' lists, each handle once, in order, with an exact size_hint at every position (ghost view over the remaining elements of the slice iterators).',
          'contract-based deductive verification (Verus) under the events feature', '7 C17'),
  'C19': ('proof', 'The whole obligation set is re-extracted and re-verified under all 8 feature x profile configurations (quick: N=1; thorough: N in {1,2,3,16,17,32}); wrapping_version changes only the next() contract while every C03/C04 obligation still discharges unconditionally.',
          'contract-based deductive verification (Verus) as a configuration matrix', '7 C19'),
